@@ -135,6 +135,9 @@ int main(int argc, char** argv) {
           if (!(e <= tol)) violation("UTransform(V,is):mismatch:" + cls, "{\"ctx\":" + ctx + ",\"got\":" + jarr(got) + ",\"want\":" + jarr(want) + ",\"err\":" + jnum(e) + "}");
           double n0 = A * A, n1 = r * r;
           if (!(std::fabs(n1 - n0) <= 64 * d * d * tol * maxabs(ac))) violation("UTransform(V,is):norm-not-preserved:" + cls, ctx);
+          // the generator may be the transformed vector itself (const reference to *this): exp(-isA) A exp(isA) = A
+          if (&ac == &As[0]) { SU_vector X = mkvec(d, vc); SU_vector rx = X.UTransform(X, gsl_complex_rect(0, s)); double ex = maxdiff(comps(rx), vc); count("evaluations");
+            if (!(ex <= 256 * d * ref::EPS * std::max(1.0, vn) * maxabs(vc))) violation("UTransform(V,is):generator-aliases-vector:" + cls, "{\"ctx\":" + ctx + ",\"err\":" + jnum(ex) + "}"); }
           SU_vector back = r.UTransform(Vv, gsl_complex_rect(0, -s));
           double eb = maxdiff(comps(back), ac);
           if (!(eb <= 4 * tol)) violation("UTransform(V,is):not-inverted-by-minus-s:" + cls, "{\"ctx\":" + ctx + ",\"err\":" + jnum(eb) + "}");
